@@ -18,7 +18,7 @@ from ..algebra_lin import linear_form
 
 FILESET = "typhon/files/fileset.py"
 HCOMMON = "typhon/files/handlers/common.py"
-EXPECT = {"C02.table": 21, "C02.year2": 1, "C02.doy": 4, "C02.subsec": 2, "C02.endfill": 5, "C02.default_end": 3, "C02.merge": 4, "C02.reject": 4, "C02.memo": 1}
+EXPECT = {"C02.args": 3, "C02.table": 21, "C02.year2": 1, "C02.doy": 4, "C02.subsec": 2, "C02.endfill": 5, "C02.default_end": 3, "C02.merge": 4, "C02.reject": 4, "C02.memo": 1}
 
 DOCUMENTED = ["year", "year2", "month", "day", "doy", "hour", "minute", "second", "millisecond"]
 FIELD = {"year": "year", "month": "month", "day": "day", "hour": "hour", "minute": "minute", "second": "second"}
@@ -1032,3 +1032,6 @@ def run(ctx):
     for r in (rule_table, rule_year2, rule_doy_subsec, rule_endfill, rule_default_end, rule_merge, rule_reject, rule_memo, rule_regexfill):
         ctx.attempt(r, ctx)
     ctx.attempt(rule_anchor, ctx, "C01.anchor")
+    # the caller's arguments (arrays, filter / fill dictionaries) are not modified: an in-place update makes the next call on the same objects wrong
+    from ..purity import rule_pure as _rule_args
+    ctx.attempt(_rule_args, ctx, "C02.args", [('typhon/files/fileset.py', 'FileSet.get_filename'), ('typhon/files/fileset.py', 'FileSet.parse_filename'), ('typhon/files/fileset.py', 'FileSet._fill_placeholders')], "the caller's arguments are not modified in place")
